@@ -17,7 +17,7 @@ ALPHABETS = {
 }
 NAME_POOL = ["a", "b", "c", "d", "e", "f"]
 PREFIX_POOL = ["p", "q", "r"]
-URI_POOL = ["u:1", "u:2", "http://x/3", "u:4"]
+URI_POOL = ["u:1", "u:2", "http://x/3", "u:4", "http://x/3/", "u:1/"]
 ATTR_KEYS = ["id", "k", "scope", "system", "xml:lang", "{u:1}a", "{http://x/3}b", "{u:2}a"]
 
 
